@@ -60,6 +60,7 @@ func runLBDist(x *X) {
 	}
 	onErr := func(e *simrt.SchedError) {
 		x.Violate("C12", "C12/"+e.Kind+"{lbdist}", "%s", e.Error())
+		x.Blocked(e, "lbdist")
 	}
 	var h *lbHarness
 	x.Do("setup", func() {
